@@ -130,6 +130,153 @@ log_direct(const char *fn, const char *kind, int n, int same, int st)
         tr_end();
 }
 
+/* ---------- QUIC helpers: packets of one connection through one call vs one job per packet ---------- */
+#include <openssl/evp.h>
+static void
+quic_all(hx_rng *g, int reps)
+{
+        static const int npk[] = { 1, 2, 3, 4, 7, 8, 9, 16, 17, 33 };
+        for (int it = 0; it < reps * 2; it++) {
+                int sig = sigsetjmp(hx_fault_jmp, 1);
+                if (sig != 0) {
+                        alarm(0);
+                        guard_fail("quic", sig);
+                        ga_reset();
+                        continue;
+                }
+                alarm(30);
+                const int n = npk[it % 10];
+                /* --- imb_quic_aes_gcm / imb_quic_chacha20_poly1305: same key, 12-byte IVs, one AAD length --- */
+                for (int alg = 0; alg < 2; alg++) {
+                        const char *kind = alg ? ((it & 1) ? "CHAPOLYE" : "CHAPOLYD")
+                                               : (it % 4 == 0 ? "GCM128E" : it % 4 == 1 ? "GCM256E" : it % 4 == 2 ? "GCM128D" : "GCM256D");
+                        static hx_job js[40];
+                        hx_spec sp0;
+                        void *dst[40], *tag[40];
+                        const void *src[40], *iv[40], *aad[40];
+                        uint64_t len[40];
+                        int st = IMB_STATUS_COMPLETED;
+                        hx_spec_from_kind(kind, g, &sp0);
+                        const uint32_t aadlen = 1 + hx_below(g, 40);
+                        uint8_t key0[64];
+                        for (int i = 0; i < n; i++) {
+                                hx_spec sp;
+                                hx_spec_from_kind(kind, g, &sp);
+                                sp.ivlen = 12;
+                                sp.aadlen = aadlen;
+                                sp.taglen = 16;
+                                sp.inplace = 0;
+                                sp.coff = 0;
+                                sp.hoff = 0;
+                                if (sp.len > 1500)
+                                        sp.len = 1 + sp.len % 1500;
+                                sp.hlen = sp.len;
+                                sp.placement = GA_SLACK;
+                                hx_job_build(M, &sp, i, &js[i]);
+                                if (i == 0)
+                                        memcpy(key0, js[0].rawkey, 64);
+                        }
+                        /* one connection: every packet under the key of packet 0 */
+                        for (int i = 0; i < n; i++) {
+                                js[i].tmpl.enc_keys = js[0].tmpl.enc_keys;
+                                js[i].tmpl.dec_keys = js[0].tmpl.dec_keys;
+                                IMB_JOB *slot = IMB_GET_NEXT_JOB(M);
+                                hx_job_to_slot(&js[i], slot);
+                                IMB_JOB *r = IMB_SUBMIT_JOB(M);
+                                if (!r)
+                                        r = IMB_FLUSH_JOB(M);
+                                if (!r || r->status != IMB_STATUS_COMPLETED)
+                                        st = r ? (int) r->status : -1;
+                                src[i] = js[i].src_snapshot;
+                                iv[i] = js[i].iv;
+                                aad[i] = js[i].aad;
+                                len[i] = js[i].sp.len;
+                                dst[i] = ga_alloc(js[i].sp.len ? js[i].sp.len : 1, 1, GA_END, "q_dst", i);
+                                tag[i] = ga_alloc(16, 1, GA_END, "q_tag", i);
+                        }
+                        /* (more than six arguments: called directly, not through the register-checking trampoline) */
+                        hx_in_call = 1;
+                        if (alg == 0)
+                                imb_quic_aes_gcm(M, (const struct gcm_key_data *) js[0].tmpl.enc_keys, (IMB_KEY_SIZE_BYTES) sp0.kl,
+                                                 (IMB_CIPHER_DIRECTION) sp0.dir, dst, src, len, iv, aad, aadlen, tag, 16, (uint64_t) n);
+                        else
+                                imb_quic_chacha20_poly1305(M, js[0].tmpl.enc_keys, (IMB_CIPHER_DIRECTION) sp0.dir, dst, src, len, iv,
+                                                           aad, aadlen, tag, (uint64_t) n);
+                        hx_in_call = 0;
+                        int same = imb_get_errno(M) == 0, dbg = same ? 0 : 4;
+                        for (int i = 0; i < n; i++) {
+                                if (len[i] && memcmp(dst[i], js[i].dst, len[i]) != 0)
+                                        same = 0, dbg |= 1;
+                                if (memcmp(tag[i], js[i].tag, 16) != 0)
+                                        same = 0, dbg |= 2;
+                        }
+                        const ga_obj *bad = NULL;
+                        if (ga_check_canaries(&bad))
+                                same = 0;
+                        if (dbg && getenv("HX_DEBUG"))
+                                fprintf(stderr, "quic %s n=%d dbg=%d errno=%d\n", kind, n, dbg, imb_get_errno(M));
+                        log_direct(alg ? "quic_chacha20_poly1305" : "quic_aes_gcm", kind, n, same, st);
+                        for (int i = 0; i < n; i++)
+                                hx_job_free(&js[i]);
+                        ga_reset();
+                }
+                /* --- header protection masks: 5 bytes per 16-byte sample --- */
+                {
+                        uint8_t key[32], samples[40][16], mask[40][5], exp[40][5];
+                        void *dp[40];
+                        const void *sp_[40];
+                        hx_fill(g, key, 32);
+                        for (int i = 0; i < n; i++) {
+                                hx_fill(g, samples[i], 16);
+                                memset(mask[i], 0xEE, 5);
+                                dp[i] = mask[i];
+                                sp_[i] = samples[i];
+                        }
+                        /* AES-ECB of the sample, first 5 bytes (RFC 9001 5.4.3), against OpenSSL */
+                        const int kl = (it & 1) ? 32 : 16;
+                        DECLARE_ALIGNED(uint8_t ek[15 * 16], 16);
+                        DECLARE_ALIGNED(uint8_t dk[15 * 16], 16);
+                        if (kl == 16)
+                                IMB_AES_KEYEXP_128(M, key, ek, dk);
+                        else
+                                IMB_AES_KEYEXP_256(M, key, ek, dk);
+                        hx_call((void *) imb_quic_hp_aes_ecb, 6, (uint64_t) M, (uint64_t) ek, (uint64_t) dp, (uint64_t) sp_, (uint64_t) n,
+                                (uint64_t) kl);
+                        int same = imb_get_errno(M) == 0;
+                        for (int i = 0; i < n; i++) {
+                                uint8_t blk[32];
+                                int ol = 0;
+                                EVP_CIPHER_CTX *c = EVP_CIPHER_CTX_new();
+                                EVP_EncryptInit_ex(c, kl == 16 ? EVP_aes_128_ecb() : EVP_aes_256_ecb(), NULL, key, NULL);
+                                EVP_CIPHER_CTX_set_padding(c, 0);
+                                EVP_EncryptUpdate(c, blk, &ol, samples[i], 16);
+                                EVP_CIPHER_CTX_free(c);
+                                memcpy(exp[i], blk, 5);
+                                if (memcmp(mask[i], exp[i], 5) != 0)
+                                        same = 0;
+                        }
+                        log_direct("quic_hp_aes_ecb", kl == 16 ? "ECB128E" : "ECB256E", n, same, IMB_STATUS_COMPLETED);
+                        /* ChaCha20: counter = sample[0..3], nonce = sample[4..15], 5 bytes of key stream (RFC 9001 5.4.4) */
+                        for (int i = 0; i < n; i++)
+                                memset(mask[i], 0xEE, 5);
+                        hx_call((void *) imb_quic_hp_chacha20, 5, (uint64_t) M, (uint64_t) key, (uint64_t) dp, (uint64_t) sp_, (uint64_t) n);
+                        same = imb_get_errno(M) == 0;
+                        for (int i = 0; i < n; i++) {
+                                uint8_t zero[5] = { 0 }, ks[8];
+                                int ol = 0;
+                                EVP_CIPHER_CTX *c = EVP_CIPHER_CTX_new();
+                                EVP_EncryptInit_ex(c, EVP_chacha20(), NULL, key, samples[i]); /* 16-byte IV = counter || nonce */
+                                EVP_EncryptUpdate(c, ks, &ol, zero, 5);
+                                EVP_CIPHER_CTX_free(c);
+                                if (memcmp(mask[i], ks, 5) != 0)
+                                        same = 0;
+                        }
+                        log_direct("quic_hp_chacha20", "CHACHA20E", n, same, IMB_STATUS_COMPLETED);
+                }
+                alarm(0);
+        }
+}
+
 static void
 direct_all(hx_rng *g, int reps)
 {
@@ -468,6 +615,7 @@ drv_entry(int argc, char **argv)
                 for (unsigned s = 0; s < sizeof(sizes) / sizeof(sizes[0]); s++)
                         sync_burst(burst_kinds[k], sizes[s], &g);
         direct_all(&g, reps);
+        quic_all(&g, reps);
         mix_probe(&g);
         tr_begin("EntryDone");
         tr_int("items", nitems);
